@@ -104,15 +104,19 @@ class C15(object):
             'non-trivial = the search accepted, or rejected a genuinely unsteady system' % SLACK)
     assumptions = ['slack %g: a mode of modulus <= 2 may grow one step past the acceptance test' % SLACK,
                    'inner solves are exact (recursive blocks), so inner tolerance cannot blur the verdict']
-    required_counters = ('accepted.judged', 'accepted.negative_valued', 'rejected.judged', 'untouched.judged')
+    required_counters = ('accepted.judged', 'accepted.negative_valued', 'rejected.judged', 'untouched.judged',
+                         'via_solve_equation')
 
     def n_cases(self, tier):
         return 300 if tier == 'quick' else 20000
 
     def make_case(self, rng, idx, tier):
         d = gen_dynamics(rng)
+        via_solve = rng.random() < 0.3
+        if via_solve and d['exo'] is not None:
+            d['exo'] = [d['exo'][0]] * len(d['exo'])     # constant input: period 1 of the real solve IS the further step
         return {'kind': 'search', 'dyn': d, 'text': render(d), 'T': rng.choice([3, 5, 10, 30, 100, 300, 300]),
-                'tol': 10 ** rng.uniform(-8, -2), 'reduction': rng.random() < 0.5}
+                'tol': 10 ** rng.uniform(-8, -2), 'reduction': rng.random() < 0.5, 'via_solve': via_solve}
 
     def run_case(self, case):
         from sfc_models.equation_solver import EquationSolver, NoEquilibriumError
@@ -128,7 +132,9 @@ class C15(object):
 
         def snap():
             p = s.Parser
-            return copy.deepcopy({'endo': list(p.Endogenous), 'lag': list(p.Lagged), 'exo': list(p.Exogenous),
+            return copy.deepcopy({'endo': list(p.Endogenous), 'lag': list(p.Lagged),
+                                  # the solver's own step counter 'k' is (re-)appended by every SetInitialConditions
+                                  'exo': [e for e in p.Exogenous if e[0] != 'k'],
                                   'deco': list(p.Decoration), 'ic': dict(p.InitialConditions), 'maxtime': p.MaxTime,
                                   'tol': p.Err_Tolerance, 'all': dict(p.AllEquations),
                                   'exo_series': {n: list(s.TimeSeries[n]) for n in exo_names},
@@ -137,7 +143,13 @@ class C15(object):
         outcome = 'accepted'
         try:
             with contextlib.redirect_stdout(io.StringIO()):
-                s.CalculateInitialSteadyState()
+                if case.get('via_solve'):
+                    # the public path: the search is switched on and runs inside SolveEquation()
+                    s.ParameterSolveInitialSteadyState = True
+                    s.SolveEquation()
+                    rec.count('via_solve_equation')
+                else:
+                    s.CalculateInitialSteadyState()
         except NoEquilibriumError:
             outcome = 'NoEquilibriumError'
         except ValueError as e:
@@ -163,6 +175,10 @@ class C15(object):
             rec.count('accepted.judged')
             s2 = copy.deepcopy(s)
             s2.TraceStep = None
+            if case.get('via_solve'):
+                # SolveEquation already produced period 1 from the installed values (constant exogenous input)
+                for n in list(s2.TimeSeries.keys()):
+                    s2.TimeSeries[n] = list(s2.TimeSeries[n][:1]) if n not in exo_names else s2.TimeSeries[n]
             for n in exo_names:
                 if n == 'k':
                     continue
